@@ -110,6 +110,12 @@ CLAIMED = {
         technique="loop-carried-state + argument-provenance analysis over MIR; type-directed coverage with verdict-propagation check",
         design_ref="DESIGN.md section 4 C30",
     ),
+    "C31": dict(
+        level="other",
+        text="Structure of extern signatures and CALL resolution: the writers of ExternSignature / ExternParameter / ExternParameterType read every field (necessary for the print/parse round trip); resolve_to_signature resolves arguments only after the != count check with error ParameterCount; per argument kind, UnresolvedCallArgument::resolve can fail with exactly the documented error variants, looks declared regions up and tests `mutable` before accepting an immediate; resolve_return accepts only MemoryReference | Identifier, looks up, compares the type and marks the slot mutable. The full argument x parameter truth table is not decided.",
+        technique="field coverage + guard dominance + per-arm error-variant tables (aggregates within HIR arm spans)",
+        design_ref="DESIGN.md section 4 C31",
+    ),
     "C33": dict(
         level="other",
         text="Template conformance of Program::wrap_in_loop read from the un-expanded source: early returns for 0 and 1; otherwise DECLARE counter INTEGER, MOVE counter <- iterations, LABEL start, <body>, SUB counter 1, JUMP-WHEN start counter in this order on a clone_without_body_instructions of self, all counter operands naming the caller's reference; clone_without_body_instructions clones every non-body field. The step from this template to 'body runs exactly n times' is a fixed four-line argument; execution itself is not decided.",
